@@ -1358,7 +1358,7 @@ impl World {
         Ok(Exec::Done)
     }
 
-    fn rebuild_from_moves(&mut self, start: RawBoard, moves: &[Move], outcome: Option<Outcome>) -> Result<Option<MoveChain>, Violation> {
+    fn rebuild_from_moves(&mut self, start: RawBoard, moves: &[Move], outcome: Option<Outcome>, same_game: bool) -> Result<Option<MoveChain>, Violation> {
         let b = match Board::try_from(start) {
             Ok(b) => b,
             Err(_) => return Ok(None),
@@ -1366,7 +1366,7 @@ impl World {
         let mut c = MoveChain::new(b);
         for (i, m) in moves.iter().enumerate() {
             if let Err(e) = c.push(*m) {
-                if self.on(C13) {
+                if self.on(C13) && same_game {
                     return Err(self.fail(
                         C13,
                         "rebuild",
@@ -1387,7 +1387,7 @@ impl World {
         let mut start = self.rc.start;
         let mut moves = self.rc.moves.clone();
         let mut outcome = self.rc.outcome;
-        match v % 5 {
+        match v % 8 {
             0 => {}
             1 => {
                 if moves.pop().is_none() {
@@ -1415,11 +1415,31 @@ impl World {
                     None => return Ok(Exec::Skipped),
                 }
             }
-            _ => {
+            4 => {
                 start.move_number = if start.move_number < 60000 { start.move_number + 1 } else { start.move_number - 1 };
             }
+            5 => {
+                start.move_counter = if start.move_counter < 60000 { start.move_counter + 1 } else { start.move_counter - 1 };
+            }
+            6 => {
+                // same squares, one castling right fewer (if the start has any)
+                let mut p = crate::full::pos_of_raw(&start);
+                match p.castling.iter().position(|c| *c) {
+                    Some(i) => p.castling[i] = false,
+                    None => return Ok(Exec::Skipped),
+                }
+                start = crate::full::raw_of_pos(&p);
+            }
+            _ => {
+                // same squares without the en-passant mark (if the start has one)
+                if start.ep_source.is_none() {
+                    return Ok(Exec::Skipped);
+                }
+                start.ep_source = None;
+            }
         }
-        let twin = match self.rebuild_from_moves(start, &moves, outcome)? {
+        let same_game = start == self.rc.start && moves == self.rc.moves;
+        let twin = match self.rebuild_from_moves(start, &moves, outcome, same_game)? {
             Some(t) => t,
             None => return Ok(Exec::Skipped),
         };
@@ -1436,7 +1456,7 @@ impl World {
                     got1,
                     got2,
                     if want { "equal" } else { "not equal" },
-                    v % 5
+                    v % 8
                 ),
             ));
         }
@@ -1447,7 +1467,7 @@ impl World {
         let start = *self.chain.startpos();
         let moves: Vec<Move> = self.chain.iter().collect();
         let outcome = *self.chain.outcome();
-        let fresh = match self.rebuild_from_moves(start, &moves, outcome)? {
+        let fresh = match self.rebuild_from_moves(start, &moves, outcome, true)? {
             Some(c) => c,
             None => {
                 if self.on(C13) {
